@@ -170,32 +170,42 @@ theorem View.Inj.T {v : View} (h : v.Inj) : v.T.Inj := by
     linarith)
   exact ⟨this.2, this.1⟩
 
-/-- the state after the first `j` rows of a pass -/
-theorem pass_prefix (k : Kern) (cs : List K) (v : View) (hinj : v.Inj) (H : HighOK v.s1 v.N1) (m : Memory K)
-    (j : Nat) (hj : j ≤ v.N0) :
-    let mj := (List.range j).foldl (rowStep k cs v) m
-    (∀ y x, y < j → x < v.N1 → mj (v.addr y x) = coreKernel k cs v.N1 (v.read m y) x) ∧
-    (∀ y x, j ≤ y → y < v.N0 → x < v.N1 → mj (v.addr y x) = m (v.addr y x)) ∧
-    (∀ a, (∀ y x, y < v.N0 → x < v.N1 → a ≠ v.addr y x) → mj a = m a) := by
+/-- a row-by-row in-place update of a view: row `y` is replaced by `R m data` computed from the memory before the store -/
+def foldRows (v : View) (R : Memory K → Int → Nat → K) (j : Nat) (m : Memory K) : Memory K :=
+  (List.range j).foldl (fun (m : Memory K) (y : Nat) =>
+    writeRow m (v.off + v.s0 * (y : Int)) v.s1 v.N1 (R m (v.off + v.s0 * (y : Int)))) m
+
+omit [Field K] in
+/-- the state after the first `j` rows of such an update, when `R` is a row operator `T` reading the row only -/
+theorem fold_prefix (v : View) (hinj : v.Inj) (R : Memory K → Int → Nat → K) (T : (Nat → K) → Nat → K)
+    (hT : ∀ f f' : Nat → K, (∀ p, p < v.N1 → f p = f' p) → ∀ x, x < v.N1 → T f x = T f' x)
+    (hR : ∀ (m : Memory K) (data : Int), R m data = T (fun i : Nat => m (data + v.s1 * (i : Int))))
+    (m : Memory K) (j : Nat) (hj : j ≤ v.N0) :
+    (∀ y x, y < j → x < v.N1 → foldRows v R j m (v.addr y x) = T (v.read m y) x) ∧
+    (∀ y x, j ≤ y → y < v.N0 → x < v.N1 → foldRows v R j m (v.addr y x) = m (v.addr y x)) ∧
+    (∀ a, (∀ y x, y < v.N0 → x < v.N1 → a ≠ v.addr y x) → foldRows v R j m a = m a) := by
   induction j with
   | zero => exact ⟨fun y x hy => absurd hy (by omega), fun _ _ _ _ _ => rfl, fun _ _ => rfl⟩
   | succ j ih =>
     obtain ⟨iha, ihb, ihc⟩ := ih (by omega)
-    simp only [List.range_succ, List.foldl_append, List.foldl_cons, List.foldl_nil]
-    set mj := (List.range j).foldl (rowStep k cs v) m with hmj
+    have hstep : foldRows v R (j + 1) m = writeRow (foldRows v R j m) (v.off + v.s0 * (j : Int)) v.s1 v.N1
+        (R (foldRows v R j m) (v.off + v.s0 * (j : Int))) := by
+      simp only [foldRows, List.range_succ, List.foldl_append, List.foldl_cons, List.foldl_nil]
+    rw [hstep]
+    generalize foldRows v R j m = mj at iha ihb ihc ⊢
     have hjlt : j < v.N0 := by omega
-    -- the row store of step `j`
-    have hrow : ∀ x, x < v.N1 → rowStep k cs v mj j (v.addr j x) = coreKernel k cs v.N1 (v.read m j) x := by
+    have hrow : ∀ x, x < v.N1 →
+        writeRow mj (v.off + v.s0 * (j : Int)) v.s1 v.N1 (R mj (v.off + v.s0 * (j : Int))) (v.addr j x)
+          = T (v.read m j) x := by
       intro x hx
       show writeRow mj (v.off + v.s0 * (j : Int)) v.s1 v.N1 _ (v.off + v.s0 * (j : Int) + v.s1 * (x : Int)) = _
       rw [writeRow_hit _ _ _ _ _ x hx (by
         intro x' hx' e
         exact (hinj j j x' x hjlt hjlt hx' hx (by simp only [View.addr]; linarith)).2)]
-      rw [rowResult_core k cs mj _ _ _ H]
-      apply coreKernel_congr
-      intro p hp
-      exact ihb j p (le_refl _) hjlt hp
-    have hother : ∀ a, (∀ x, x < v.N1 → a ≠ v.addr j x) → rowStep k cs v mj j a = mj a := by
+      rw [hR]
+      exact hT _ _ (fun p hp => ihb j p (le_refl _) hjlt hp) x hx
+    have hother : ∀ a, (∀ x, x < v.N1 → a ≠ v.addr j x) →
+        writeRow mj (v.off + v.s0 * (j : Int)) v.s1 v.N1 (R mj (v.off + v.s0 * (j : Int))) a = mj a := by
       intro a ha
       exact writeRow_miss _ _ _ _ _ a ha
     refine ⟨?_, ?_, ?_⟩
@@ -211,13 +221,147 @@ theorem pass_prefix (k : Kern) (cs : List K) (v : View) (hinj : v.Inj) (H : High
       rw [hother _ (fun x' hx' => ha j x' hjlt hx')]
       exact ihc a ha
 
+theorem pass_eq_foldRows (k : Kern) (cs : List K) (v : View) (m : Memory K) :
+    pass k cs v m = foldRows v (fun m data => rowResult k cs m data v.s1 v.N1) v.N0 m := rfl
+
+omit [Field K] in
+theorem scaleView_eq_foldRows (g : K → K) (v : View) (m : Memory K) :
+    scaleView g v m = foldRows v (fun m data => fun x : Nat => g (m (data + v.s1 * (x : Int)))) v.N0 m := rfl
+
 /-- **a pass over an injective view with the pointer right** is the core kernel on every row of the viewed image,
     and writes nothing outside the view -/
 theorem pass_spec (k : Kern) (cs : List K) (v : View) (hinj : v.Inj) (H : HighOK v.s1 v.N1) (m : Memory K) :
     (∀ y x, y < v.N0 → x < v.N1 → pass k cs v m (v.addr y x) = rowsPass (coreKernel k cs) v.N1 (v.read m) y x) ∧
     (∀ a, (∀ y x, y < v.N0 → x < v.N1 → a ≠ v.addr y x) → pass k cs v m a = m a) := by
-  obtain ⟨ha, _, hc⟩ := pass_prefix k cs v hinj H m v.N0 (le_refl _)
+  rw [pass_eq_foldRows]
+  obtain ⟨ha, _, hc⟩ := fold_prefix v hinj (fun m data => rowResult k cs m data v.s1 v.N1) (coreKernel k cs v.N1)
+    (fun f f' h x _ => coreKernel_congr k cs v.N1 f f' h x)
+    (fun m data => rowResult_core k cs m data v.s1 v.N1 H) m v.N0 (le_refl _)
   exact ⟨fun y x hy hx => ha y x hy hx, hc⟩
+
+omit [Field K] in
+/-- the in-place scaling touches every element of an injective view once and nothing else -/
+theorem scaleView_spec (g : K → K) (v : View) (hinj : v.Inj) (m : Memory K) :
+    (∀ y x, y < v.N0 → x < v.N1 → scaleView g v m (v.addr y x) = g (m (v.addr y x))) ∧
+    (∀ a, (∀ y x, y < v.N0 → x < v.N1 → a ≠ v.addr y x) → scaleView g v m a = m a) := by
+  rw [scaleView_eq_foldRows]
+  obtain ⟨ha, _, hc⟩ := fold_prefix v hinj (fun m data => fun x : Nat => g (m (data + v.s1 * (x : Int))))
+    (fun f x => g (f x)) (fun f f' h x hx => by show g (f x) = g (f' x); rw [h x hx])
+    (fun m data => rfl) m v.N0 (le_refl _)
+  exact ⟨fun y x hy hx => ha y x hy hx, hc⟩
+
+theorem addr_T (v : View) (y x : Nat) : v.T.addr x y = v.addr y x := by
+  simp only [View.addr, View.T]; ring
+
+/-- a pass over the transposed view `f.T` is the core kernel on every column -/
+theorem pass_T_spec (k : Kern) (cs : List K) (v : View) (hinj : v.Inj) (H : HighOK v.s0 v.N0) (m : Memory K) :
+    (∀ y x, y < v.N0 → x < v.N1 →
+      pass k cs v.T m (v.addr y x) = colsPass (coreKernel k cs) v.N0 (v.read m) y x) ∧
+    (∀ a, (∀ y x, y < v.N0 → x < v.N1 → a ≠ v.addr y x) → pass k cs v.T m a = m a) := by
+  obtain ⟨ha, hc⟩ := pass_spec k cs v.T hinj.T H m
+  constructor
+  · intro y x hy hx
+    rw [← addr_T, ha x y hx hy]
+    show coreKernel k cs v.N0 (fun i => m (v.T.addr x i)) y = coreKernel k cs v.N0 (fun k' => m (v.addr k' x)) y
+    congr 1; funext i; rw [addr_T]
+  · intro a h
+    exact hc a (fun x y hx hy e => h y x hy hx (by rw [e, addr_T]))
+
+/-- rows, then columns through the transposed view (`haar`, `ihaar`, `daubechies`) -/
+theorem rows_then_cols (k1 k2 : Kern) (cs : List K) (v : View) (hinj : v.Inj) (H1 : HighOK v.s1 v.N1)
+    (H0 : HighOK v.s0 v.N0) (m : Memory K) :
+    (∀ y x, y < v.N0 → x < v.N1 → pass k2 cs v.T (pass k1 cs v m) (v.addr y x)
+      = colsPass (coreKernel k2 cs) v.N0 (rowsPass (coreKernel k1 cs) v.N1 (v.read m)) y x) ∧
+    (∀ a, (∀ y x, y < v.N0 → x < v.N1 → a ≠ v.addr y x) → pass k2 cs v.T (pass k1 cs v m) a = m a) := by
+  obtain ⟨a1, c1⟩ := pass_spec k1 cs v hinj H1 m
+  obtain ⟨a2, c2⟩ := pass_T_spec k2 cs v hinj H0 (pass k1 cs v m)
+  constructor
+  · intro y x hy hx
+    rw [a2 y x hy hx]
+    exact coreKernel_congr k2 cs v.N0 _ _ (fun i hi => a1 i x hi hx) y
+  · intro a h
+    rw [c2 a h, c1 a h]
+
+/-- columns through the transposed view first, then rows (`idaubechies`) -/
+theorem cols_then_rows (k1 k2 : Kern) (cs : List K) (v : View) (hinj : v.Inj) (H1 : HighOK v.s1 v.N1)
+    (H0 : HighOK v.s0 v.N0) (m : Memory K) :
+    (∀ y x, y < v.N0 → x < v.N1 → pass k2 cs v (pass k1 cs v.T m) (v.addr y x)
+      = rowsPass (coreKernel k2 cs) v.N1 (colsPass (coreKernel k1 cs) v.N0 (v.read m)) y x) ∧
+    (∀ a, (∀ y x, y < v.N0 → x < v.N1 → a ≠ v.addr y x) → pass k2 cs v (pass k1 cs v.T m) a = m a) := by
+  obtain ⟨a1, c1⟩ := pass_T_spec k1 cs v hinj H0 m
+  obtain ⟨a2, c2⟩ := pass_spec k2 cs v hinj H1 (pass k1 cs v.T m)
+  constructor
+  · intro y x hy hx
+    rw [a2 y x hy hx]
+    exact coreKernel_congr k2 cs v.N1 _ _ (fun i hi => a1 y i hy hi) x
+  · intro a h
+    rw [c2 a h, c1 a h]
+
+/-- the 2-D core model a wrapper stands for -/
+def core2 (w : Wrapper) (pe : Bool) (cs : List K) : Nat → Nat → Im K → Im K :=
+  match w with
+  | .haar => haar2 pe
+  | .ihaar => ihaar2 pe
+  | .daubechies => daubechies2 cs
+  | .idaubechies => idaubechies2 cs
+
+/-- **the memory-level wrapper body on an injective view with both pointers right is the core 2-D model**, and it
+    writes nothing outside the view -/
+theorem wrapperBody_spec (w : Wrapper) (pe : Bool) (cs : List K) (v : View) (hinj : v.Inj)
+    (H1 : HighOK v.s1 v.N1) (H0 : HighOK v.s0 v.N0) (m : Memory K) :
+    (∀ y x, y < v.N0 → x < v.N1 →
+      wrapperBody w pe cs v m (v.addr y x) = core2 w pe cs v.N0 v.N1 (v.read m) y x) ∧
+    (∀ a, (∀ y x, y < v.N0 → x < v.N1 → a ≠ v.addr y x) → wrapperBody w pe cs v m a = m a) := by
+  cases w with
+  | daubechies => exact rows_then_cols .wavelet .wavelet cs v hinj H1 H0 m
+  | idaubechies => exact cols_then_rows .iwavelet .iwavelet cs v hinj H1 H0 m
+  | haar =>
+    obtain ⟨a1, c1⟩ := rows_then_cols .haar .haar cs v hinj H1 H0 m
+    cases pe with
+    | false => exact ⟨a1, c1⟩
+    | true =>
+      obtain ⟨a2, c2⟩ := scaleView_spec (fun t : K => t / two) v hinj (pass .haar cs v.T (pass .haar cs v m))
+      constructor
+      · intro y x hy hx
+        show scaleView (fun t : K => t / two) v (pass .haar cs v.T (pass .haar cs v m)) (v.addr y x) = _
+        rw [a2 y x hy hx, a1 y x hy hx]; rfl
+      · intro a h
+        show scaleView (fun t : K => t / two) v (pass .haar cs v.T (pass .haar cs v m)) a = _
+        rw [c2 a h, c1 a h]
+  | ihaar =>
+    obtain ⟨a1, c1⟩ := rows_then_cols .ihaar .ihaar cs v hinj H1 H0 m
+    cases pe with
+    | false => exact ⟨a1, c1⟩
+    | true =>
+      obtain ⟨a2, c2⟩ := scaleView_spec (fun t : K => t * two) v hinj (pass .ihaar cs v.T (pass .ihaar cs v m))
+      constructor
+      · intro y x hy hx
+        show scaleView (fun t : K => t * two) v (pass .ihaar cs v.T (pass .ihaar cs v m)) (v.addr y x) = _
+        rw [a2 y x hy hx, a1 y x hy hx]; rfl
+      · intro a h
+        show scaleView (fun t : K => t * two) v (pass .ihaar cs v.T (pass .ihaar cs v m)) a = _
+        rw [c2 a h, c1 a h]
+
+/-- contiguous views are injective -/
+theorem contig_inj (N0 N1 : Nat) : (View.contig N0 N1).Inj := by
+  intro y y' x x' _ _ hx hx' e
+  simp only [View.addr, View.contig] at e
+  simp only [View.contig] at hx hx'
+  have hxi : (x : Int) < N1 := by exact_mod_cast hx
+  have hxi' : (x' : Int) < N1 := by exact_mod_cast hx'
+  have h : (N1 : Int) * y + x = N1 * y' + x' := by linarith
+  have hy : (y : Int) = y' := by
+    rcases lt_trichotomy (y : Int) y' with h' | h' | h'
+    · have : (N1 : Int) * (y + 1) ≤ N1 * y' := Int.mul_le_mul_of_nonneg_left (by omega) (by omega)
+      rw [mul_add, mul_one] at this
+      linarith [Int.natCast_nonneg x']
+    · exact h'
+    · have : (N1 : Int) * (y' + 1) ≤ N1 * y := Int.mul_le_mul_of_nonneg_left (by omega) (by omega)
+      rw [mul_add, mul_one] at this
+      linarith [Int.natCast_nonneg x]
+  refine ⟨by omega, ?_⟩
+  rw [hy] at h
+  omega
 
 end Pass
 
